@@ -1,23 +1,37 @@
-(* C17 classifier: 0 Agree | 1 ModelMismatch | 2 PropertyFail.
+(* C17 classifier: 0 Agree | 1 ModelMismatch | 2 PropertyFail | 101 known finding C17-K1 |
+   9 harness error (a Camt053 rule list outside the model: bank-transaction-code matchers).
    A case is a list of configuration documents, a file path, what ConfigSet::select returned,
-   the CSV records fed to import::import under the selected configuration (with the column
-   layout the harness used) and the transactions that came out.
+   and either the CSV records fed to import::import under the selected configuration (with the
+   column layout the harness used) or the records of a Camt053 statement (the texts of the fields
+   a rule can look at), and the transactions that came out.
    The property is re-derived from the observation: the selected entry against the declarative
    merge (Model/ImpConfigSpec.v), and payee / code / counter account / pending mark of every
    transaction against the rules that hit its record (Model/ImpExtractSpec.v). *)
 From Coq Require Import List NArith ZArith Bool QArith Qcanon.
 From Okv Require Import Base.Dec Model.ImpConfig Model.ImpConfigSpec Model.ImpExtract
-     Model.ImpExtractSpec Model.ImpSingleEntry Model.ImpCsv Run.ImpPattern Run.ImpCase.
+     Model.ImpExtractSpec Model.ImpSingleEntry Model.ImpCsv Model.ImpCamtMatch Run.ImpPattern Run.ImpCase.
 Import ListNotations.
 
 Inductive sel_obs := SelNone | SelErr (code : N) | SelOk (e : entry pat) | SelPanic.
 
-Record case := { k_docs : list (doc pat); k_path : str; k_sel : sel_obs;
-                 k_fmt : format_spec;           (* layout used for the import run *)
-                 k_header : list str; k_rows : list row; k_imp : imp_obs }.
+Record csv_case := { k_docs : list (doc pat); k_path : str; k_sel : sel_obs;
+                     k_fmt : format_spec;           (* layout used for the import run *)
+                     k_header : list str; k_rows : list row; k_imp : imp_obs }.
+
+(* a Camt053 run: the entries of the statement in file order, each the list of its records (the
+   entry itself when it has no TxDtls, else one per TxDtls) *)
+Record camt_case := { kc_docs : list (doc pat); kc_path : str; kc_sel : sel_obs;
+                      kc_entries : list (list camt_entity); kc_imp : imp_obs }.
+
+Inductive case := KCsv (c : csv_case) | KCamt (c : camt_case).
 Definition K docs path sel fmt header rows imp : case :=
-  {| k_docs := docs; k_path := path; k_sel := sel; k_fmt := fmt; k_header := header; k_rows := rows;
-     k_imp := imp |}.
+  KCsv {| k_docs := docs; k_path := path; k_sel := sel; k_fmt := fmt; k_header := header; k_rows := rows;
+          k_imp := imp |}.
+(* CE: the fields by RewriteField code, AcctSvcrRef, debit *)
+Definition CE (fields : list (N * str)) (reference : option str) (debit : bool) : camt_entity :=
+  {| ce_texts := map (fun kv => (RF (fst kv), snd kv)) fields; ce_reference := reference; ce_debit := debit |}.
+Definition KC docs path sel entries imp : case :=
+  KCamt {| kc_docs := docs; kc_path := path; kc_sel := sel; kc_entries := entries; kc_imp := imp |}.
 
 Definition cfg_err_code (e : cfg_err) : N :=
   match e with NoEncoding => 1 | NoAccount => 2 | NoAccountType => 3 | NoCommodity => 4 end%N.
@@ -46,7 +60,7 @@ Definition spec_txn (e : entry pat) (fm : field_map) (r : row) (t : stxn) : bool
   match fm_extract fm FPayee rec, fm_extract fm FCategory rec, fm_extract fm FSecondaryCommodity rec,
         fm_amount fm (e_account_type e) rec with
   | IOk (Some payee0), IOk cat, IOk sc, IOk amount =>
-      let hs := hits (csv_matches re_captures) frag0 (e_rewrite e)
+      let hs := hits (csv_matches re_captures) frag0 (compile (e_rewrite e))
                      {| rc_payee := payee0; rc_category := cat; rc_secondary_commodity := sc |} in
       let counter := if d_neg amount then first_post t else last_post t in
       (* the transaction carries the text on one line without outer white space (one_line, the
@@ -93,7 +107,7 @@ Definition spec_import (e : entry pat) (header : list str) (rows : list row) (o 
       end
   end.
 
-Definition classify (c : case) : N :=
+Definition classify_csv (c : csv_case) : N :=
   let msel := select (k_docs c) (k_path c) in
   let sel_spec := spec_select (k_docs c) (k_path c) (k_sel c) in
   let sel_same := sel_agrees (k_sel c) msel in
@@ -107,5 +121,108 @@ Definition classify (c : case) : N :=
       if negb sel_spec then 2%N
       else if sel_same && match k_imp c with ImpNotRun => true | _ => false end then 0%N else 1%N
   end.
+
+(* ---- Camt053 records ---- *)
+Definition camt_hits (e : entry pat) (r : camt_entity) : list (hit pat) :=
+  hits (camt_matches re_captures) frag0 (compile (e_rewrite e)) r.
+
+(* the property on one transaction: payee, counter account and pending mark as the rules that hit
+   the record say; `strict`: the code is the one a hit captured when there is one (the property as
+   stated), otherwise the statement's reference; not strict: always the statement's reference
+   (what the Camt053 importer does, known finding C17-K1) *)
+Definition spec_camt_txn (strict : bool) (e : entry pat) (r : camt_entity) (t : stxn) : bool :=
+  let hs := camt_hits e r in
+  let counter := if ce_debit r then first_post t else last_post t in
+  str_eqb (st_payee t) (one_line (match spec_payee hs with Some p => p | None => unknown_payee end))
+  && ostr_eqb (st_code t)
+              (option_map one_line (if strict then option_or (spec_code hs) (ce_reference r)
+                                    else ce_reference r))
+  && match counter with
+     | None => false
+     | Some p =>
+         str_eqb (sp_account p)
+                 (match spec_account hs with
+                  | Some a => a
+                  | None => if ce_debit r then expenses_unknown else income_unknown
+                  end)
+         && clear_eqb (sp_clear p) (if spec_cleared hs then Uncleared else Pending)
+     end.
+
+Fixpoint spec_camt_txns (strict : bool) (e : entry pat) (rs : list camt_entity) (ts : list stxn) : bool :=
+  match rs, ts with
+  | [], [] => true
+  | r :: rr, t :: tr => spec_camt_txn strict e r t && spec_camt_txns strict e rr tr
+  | _, _ => false
+  end.
+
+(* one transaction per record; entries reversed under new_to_old, the details of an entry not *)
+Definition camt_records (e : entry pat) (entries : list (list camt_entity)) : list camt_entity :=
+  concat (match fs_row_order (e_format e) with OldToNew => entries | NewToOld => rev entries end).
+
+(* the Extractor is built before the statement is read: a rule list with a matcher that does not
+   convert (invalid regex, a CSV-only field, an empty AND-list) is refused *)
+Definition camt_rules_ok (e : entry pat) : bool := rules_ok (camt_valid re_valid) (e_rewrite e).
+
+Definition spec_camt (strict : bool) (e : entry pat) (entries : list (list camt_entity)) (o : imp_obs) : bool :=
+  match o with
+  | ImpPanic | ImpNotRun => false
+  | ImpErr _ => negb (camt_rules_ok e)
+  | ImpOk ts => camt_rules_ok e && spec_camt_txns strict e (camt_records e entries) ts
+  end.
+
+(* known finding C17-K1 (known_findings.json, code 1): some record's rules captured a code that is
+   not the statement's reference; the Camt053 importer books the reference (or no code) *)
+Definition known_class_camt_code (e : entry pat) (entries : list (list camt_entity)) : bool :=
+  existsb (fun r => match spec_code (camt_hits e r) with
+                    | Some c => negb (ostr_eqb (Some (one_line c)) (option_map one_line (ce_reference r)))
+                    | None => false
+                    end) (camt_records e entries).
+
+(* the model's transactions, seen through the same four observables *)
+Definition view_agrees (r : camt_entity) (v : camt_view) (t : stxn) : bool :=
+  let counter := if ce_debit r then first_post t else last_post t in
+  str_eqb (st_payee t) (cv_payee v) && ostr_eqb (st_code t) (cv_code v)
+  && match counter with
+     | None => false
+     | Some p =>
+         str_eqb (sp_account p) (match cv_dest v with
+                                 | Some a => a
+                                 | None => if ce_debit r then expenses_unknown else income_unknown
+                                 end)
+         && clear_eqb (sp_clear p) (if cv_pending v then Pending else Uncleared)
+     end.
+Fixpoint views_agree (e : entry pat) (rs : list camt_entity) (ts : list stxn) : bool :=
+  match rs, ts with
+  | [], [] => true
+  | r :: rr, t :: tr => view_agrees r (camt_record_view re_captures (e_rewrite e) r) t && views_agree e rr tr
+  | _, _ => false
+  end.
+Definition camt_model_agrees (e : entry pat) (entries : list (list camt_entity)) (o : imp_obs) : bool :=
+  match o with
+  | ImpErr _ => negb (camt_rules_ok e)
+  | ImpOk ts => camt_rules_ok e && views_agree e (camt_records e entries) ts
+  | _ => false
+  end.
+
+Definition classify_camt (c : camt_case) : N :=
+  let msel := select (kc_docs c) (kc_path c) in
+  let sel_spec := spec_select (kc_docs c) (kc_path c) (kc_sel c) in
+  let sel_same := sel_agrees (kc_sel c) msel in
+  match kc_sel c with
+  | SelOk e =>
+      if negb (camt_in_model (e_rewrite e)) then 9%N
+      else if negb sel_spec then 2%N
+      else if negb (spec_camt true e (kc_entries c) (kc_imp c)) then
+        (if spec_camt false e (kc_entries c) (kc_imp c) && known_class_camt_code e (kc_entries c)
+            && sel_same && camt_model_agrees e (kc_entries c) (kc_imp c)
+         then 101%N else 2%N)
+      else if sel_same && camt_model_agrees e (kc_entries c) (kc_imp c) then 0%N else 1%N
+  | _ =>
+      if negb sel_spec then 2%N
+      else if sel_same && match kc_imp c with ImpNotRun => true | _ => false end then 0%N else 1%N
+  end.
+
+Definition classify (c : case) : N :=
+  match c with KCsv c => classify_csv c | KCamt c => classify_camt c end.
 
 Definition verdicts (cs : list case) : list N := map classify cs.
